@@ -860,6 +860,131 @@ func runFacts(repo, outdir string) error {
 		}
 	}
 
+	// ---------- wal.go decision logic ----------
+	{
+		lw := newLean("WalLogic.lean", "wal.go")
+		oneLine := func(x string) string { return strings.Join(strings.Fields(x), " ") }
+		dr, err := walP.fn("WAL", "DeleteRange")
+		if err != nil {
+			return err
+		}
+		var sw *ast.SwitchStmt
+		for _, st := range dr.Body.List {
+			if x, ok := st.(*ast.SwitchStmt); ok && x.Tag == nil {
+				sw = x
+			}
+		}
+		if sw == nil {
+			return fmt.Errorf("wal.DeleteRange: the classification switch was not found")
+		}
+		var items []string
+		for _, cc := range sw.Body.List {
+			c := cc.(*ast.CaseClause)
+			cond := "default"
+			if len(c.List) > 0 {
+				var cs []string
+				for _, e := range c.List {
+					cs = append(cs, oneLine(walP.src(e)))
+				}
+				cond = strings.Join(cs, " , ")
+			}
+			var body []string
+			for _, b := range c.Body {
+				t := oneLine(walP.src(b))
+				if strings.HasPrefix(t, "return fmt.Errorf(") {
+					t = "return error"
+				}
+				body = append(body, t)
+			}
+			items = append(items, fmt.Sprintf("(%s, %s)", leanStr(cond), leanStr(strings.Join(body, " ; "))))
+		}
+		lw.raw("/-- the switch of `DeleteRange` that classifies (min, max) against (first, last): (condition, what is done) per case, in order -/\ndef deleteRangeSwitch : List (String × String) :=\n  " + leanList(items) + "\n\n")
+		// guards before the switch: the early return for an empty range
+		early := ""
+		for _, st := range dr.Body.List {
+			if is, ok := st.(*ast.IfStmt); ok && is.Init == nil {
+				c := oneLine(walP.src(is.Cond))
+				if c == "min > max" {
+					early = c + " => " + oneLine(walP.src(is.Body.List[len(is.Body.List)-1]))
+				}
+			}
+		}
+		lw.raw(fmt.Sprintf("/-- the empty-range guard of `DeleteRange` -/\ndef deleteRangeEmptyGuard : String := %s\n\n", leanStr(early)))
+		// the conditions of all `if` statements of a function whose body breaks out of / selects in a loop
+		condsOf := func(fname string) ([]string, error) {
+			fd, err := walP.fn("WAL", fname)
+			if err != nil {
+				return nil, err
+			}
+			var out []string
+			ast.Inspect(fd.Body, func(n ast.Node) bool {
+				if is, ok := n.(*ast.IfStmt); ok {
+					hasBreak := false
+					for _, b := range is.Body.List {
+						if bs, ok := b.(*ast.BranchStmt); ok && bs.Tok == token.BREAK {
+							hasBreak = true
+						}
+					}
+					if hasBreak {
+						out = append(out, oneLine(walP.src(is.Cond)))
+					}
+				}
+				return true
+			})
+			return out, nil
+		}
+		tc, err := condsOf("truncateTailLocked")
+		if err != nil {
+			return err
+		}
+		hc, err := condsOf("truncateHeadLocked")
+		if err != nil {
+			return err
+		}
+		var tq, hq []string
+		for _, c := range tc {
+			tq = append(tq, leanStr(c))
+		}
+		for _, c := range hc {
+			hq = append(hq, leanStr(c))
+		}
+		lw.raw("/-- conditions under which the segment scan of `truncateTailLocked` stops (the segment is kept) -/\ndef truncateTailStops : List String :=\n  " + leanList(tq) + "\n\n")
+		lw.raw("/-- conditions under which the segment scan of `truncateHeadLocked` stops (the segment becomes the head) -/\ndef truncateHeadStops : List String :=\n  " + leanList(hq) + "\n\n")
+		// StoreLogs: the base-reset condition and the monotonicity check
+		sl, err := walP.fn("WAL", "StoreLogs")
+		if err != nil {
+			return err
+		}
+		reset, mono := "", ""
+		ast.Inspect(sl.Body, func(n ast.Node) bool {
+			if is, ok := n.(*ast.IfStmt); ok {
+				c := oneLine(walP.src(is.Cond))
+				b := walP.src(is.Body)
+				if strings.Contains(b, "resetEmptyFirstSegmentBaseIndex(") && reset == "" {
+					reset = c
+				}
+				if strings.Contains(b, "non-monotonic") && mono == "" {
+					mono = c
+				}
+			}
+			return true
+		})
+		lw.raw(fmt.Sprintf("/-- `StoreLogs`: when the empty tail is re-based -/\ndef storeResetCond : String := %s\n\n", leanStr(reset)))
+		lw.raw(fmt.Sprintf("/-- `StoreLogs`: when an entry is refused as non-monotonic -/\ndef storeNonMonotonicCond : String := %s\n\n", leanStr(mono)))
+		// both writers wait for a queued rotation right after taking the lock, before they look at the state
+		waits := func(fd *ast.FuncDecl) bool {
+			src := walP.src(fd.Body)
+			il := strings.Index(src, "w.writeMu.Lock()")
+			ia := strings.Index(src, "w.awaitRotationLocked()")
+			is := strings.Index(src, "w.acquireState()")
+			return il >= 0 && ia > il && is > ia && strings.Count(src, "w.awaitRotationLocked()") == 1
+		}
+		lw.raw(fmt.Sprintf("/-- `StoreLogs` and `DeleteRange` both wait for a queued rotation (`awaitRotationLocked`) after taking the write lock and before acquiring the state, whatever the call turns out to be -/\ndef writersAwaitRotationFirst : Bool := %v\n\n", waits(sl) && waits(dr)))
+		if err := lw.finish(outdir); err != nil {
+			return err
+		}
+	}
+
 	// ---------- fs ----------
 	{
 		fsP, err := loadPkg(filepath.Join(repo, "fs"))
